@@ -253,3 +253,11 @@ package validate
 //@   modifies errs
 //@   requires errs != nil && err != nil
 //@   ensures grows: len(*errs) > len(old(*errs)) && (exists j int :: 0 <= j && j < len(*errs) && (*errs)[j] != nil)
+
+// Every condition of a policy is type-checked on its own, starting from the empty capability set: a
+// `has` test in one clause establishes nothing for the next (an `unless { x has a }` clause lets the
+// policy through exactly when the attribute is absent) (C15).
+//@ func (Validator) typecheckConditions
+//@   props C15
+//@   nosafety
+//@   assert before "t, _, err := v.typeOfExpr(&env, cond.Body, caps)" fresh_caps: !isnil(caps) && (forall c capability :: !capIn(caps, c))
